@@ -531,17 +531,14 @@ func anchorTupleRule(c *Ctx) {
 	p, r := c.P, c.R
 	r.Rule("C15/ANCHOR-TUPLE", "the fields that together record one (RTP timestamp, clock) correspondence are always written together: every basic block that stores one member of a tuple stores all of them (a member updated alone pairs the timestamp of one packet with the time of another)", 6)
 	for _, t := range anchorTuples {
-		var fs []*types.Var
-		ok := true
-		for _, n := range t.fields {
-			f := p.Field(t.pkg, t.typ, n)
-			if f == nil {
-				ok = false
-			}
-			fs = append(fs, f)
-		}
-		if !r.Anchor("C15/ANCHOR-TUPLE", t.typ+".{"+strings.Join(t.fields, ",")+"}", ok) {
+		fs, unres := p.FieldSet(t.pkg, t.typ, t.fields)
+		if !r.Anchor("C15/ANCHOR-TUPLE", t.typ+".{"+strings.Join(t.fields, ",")+"}", len(unres) == 0 && len(fs) == len(t.fields)) {
 			continue
+		}
+		// names for messages follow the resolved fields
+		t.fields = nil
+		for _, f := range fs {
+			t.fields = append(t.fields, f.Name())
 		}
 		// blocks storing each member
 		type bk struct {
